@@ -75,8 +75,10 @@ Fixpoint uidx_from (u : string) (l : list string) (n : nat) : option nat :=
 Definition uidx (u : string) : option nat := uidx_from u users 0.
 
 Definition obal (o : obs) (i : nat) : Z := nth i (o_bals o) 0.
+(* the bond of a PERSON (the account [u], i.e. the decoded address): every record of dApp d whose user field spells u,
+   in whatever case *)
 Definition obond (o : obs) (d u : string) : Z :=
-  zsum (map snd (filter (fun e => (String.eqb (fst (fst e)) d && String.eqb (snd (fst e)) u)%bool) (o_bonds o))).
+  zsum (map snd (filter (fun e => (String.eqb (fst (fst e)) d && String.eqb (acct (snd (fst e))) u)%bool) (o_bonds o))).
 Definition obonds_of (o : obs) (d : string) : list (string * string * Z) :=
   filter (fun e => String.eqb (fst (fst e)) d) (o_bonds o).
 Definition odapp (o : obs) (n : string) : option (Z * Z) :=
@@ -107,8 +109,8 @@ Definition cl (name : string) (ok : bool) : list string := if ok then [] else [n
 (* every other user's balance and every other bond record is untouched *)
 Definition frame_ok (prev o : obs) (i : nat) (n u : string) : bool :=
   (forallb (fun j => Nat.eqb j i || (obal prev j =? obal o j)) (seq 0 (List.length users))
-   && forallb (fun e => (String.eqb (fst (fst e)) n && String.eqb (snd (fst e)) u)
-                        || (obond prev (fst (fst e)) (snd (fst e)) =? obond o (fst (fst e)) (snd (fst e))))
+   && forallb (fun e => (String.eqb (fst (fst e)) n && String.eqb (acct (snd (fst e))) u)
+                        || (obond prev (fst (fst e)) (acct (snd (fst e))) =? obond o (fst (fst e)) (acct (snd (fst e)))))
               (o_bonds prev ++ o_bonds o))%bool.
 
 (* clauses that must hold in every observed state:
@@ -122,8 +124,9 @@ Definition state_clauses (mx : Z) (o : obs) : list string :=
   ++ cl "held" (zsum (map snd (o_dapps o)) <=? o_mod o).
 
 (* user message (create / bond / reclaim) of user u on dApp n *)
-Definition user_clauses (g : ghost) (o : obs) (u n : string) : list string :=
+Definition user_clauses (g : ghost) (o : obs) (u0 n : string) : list string :=
   let prev := g_prev g in
+  let u := acct u0 in          (* the person, whatever the spelling of the sender field *)
   if o_ok o then
     match uidx u with
     | None => ["user"%string]
@@ -183,7 +186,7 @@ Definition keeper_clauses (c : config) (prev ob : obs) (o : op) : list string :=
   match o with
   | KSwap u n _ b _ =>
       if o_ok ob then
-        match uidx u with None => ["user"%string] | Some i =>
+        match uidx (acct u) with None => ["user"%string] | Some i =>
           cl "frame" (kframe_ok prev ob i n n)
           (* the pool bond grows by exactly what the user paid *)
           ++ cl "pool-native" ((otot ob n - otot prev n =? b) && (obal prev i - obal ob i =? b))
@@ -195,7 +198,7 @@ Definition keeper_clauses (c : config) (prev ob : obs) (o : op) : list string :=
       else cl "reject" (same_state prev ob)
   | KRedeem u n den x _ =>
       if o_ok ob then
-        match uidx u with None => ["user"%string] | Some i =>
+        match uidx (acct u) with None => ["user"%string] | Some i =>
           let r := obal ob i - obal prev i in
           cl "frame" (kframe_ok prev ob i n n)
           (* the pool bond falls by at least what the user received, the user returned exactly x LP *)
@@ -207,7 +210,7 @@ Definition keeper_clauses (c : config) (prev ob : obs) (o : op) : list string :=
       else cl "reject" (same_state prev ob)
   | KConvert u n n2 den x =>
       if o_ok ob then
-        match uidx u with None => ["user"%string] | Some i =>
+        match uidx (acct u) with None => ["user"%string] | Some i =>
           cl "frame" (kframe_ok prev ob i n n2)
           (* a conversion neither pays ukex to the user nor takes any; it consumes exactly x LP of the source *)
           ++ cl "pool-native" ((obal ob i =? obal prev i) && (String.eqb n n2 || (lp_user (olp prev den) i - lp_user (olp ob den) i =? x)))
@@ -228,14 +231,14 @@ Definition other_clauses (prev ob : obs) (o : op) : list string :=
   match o with
   | OSetCfg _ => cl "frame" (same_state prev ob)
   | OBurnTx u den amt _ =>
-      match uidx u with None => ["user"%string] | Some i =>
+      match uidx (acct u) with None => ["user"%string] | Some i =>
         cl "frame" (same_money prev ob (Some i) && list_eqb dobs_eqb (o_dapps prev) (o_dapps ob))
         (* the sender loses exactly what is burnt, of that denomination *)
         ++ cl "burn" (if String.eqb den UKEX then obal prev i - obal ob i =? amt
                       else (obal prev i =? obal ob i) && (lp_user (olp prev den) i - lp_user (olp ob den) i =? amt)
                            && (lp_sup (olp prev den) - lp_sup (olp ob den) =? amt)) end
   | OMintFt u _ =>
-      match uidx u with None => ["user"%string] | Some i =>
+      match uidx (acct u) with None => ["user"%string] | Some i =>
         cl "frame" (same_money prev ob (Some i) && list_eqb dobs_eqb (o_dapps prev) (o_dapps ob))
         ++ cl "burn" (0 <=? obal prev i - obal ob i) end
   | OJoinVerifier _ _ _ => cl "frame" (same_state prev ob)
@@ -244,7 +247,7 @@ Definition other_clauses (prev ob : obs) (o : op) : list string :=
   | OUpsert _ _ _ _ _ _ _ _ _ => cl "frame" (same_money prev ob None)
   (* minting a token never touches dApps or bonds; ukex only leaves the sender (the fee) *)
   | OMintIssue u _ _ _ _ _ _ _ =>
-      match uidx u with None => ["user"%string] | Some i =>
+      match uidx (acct u) with None => ["user"%string] | Some i =>
         cl "frame" (list_eqb dobs_eqb (o_dapps prev) (o_dapps ob)
                     && list_eqb (fun x y => (String.eqb (fst (fst x)) (fst (fst y)) && String.eqb (snd (fst x)) (snd (fst y)) && (snd x =? snd y))%bool)
                                 (o_bonds prev) (o_bonds ob)
@@ -273,9 +276,9 @@ Fixpoint check_steps (c : config) (g : ghost) (steps : list (op * obs)) (n : Z) 
          | OTick _ => if o_ok ob then tick_clauses c g ob t else cl "reject" (same_state (g_prev g) ob)
          | OLpMsg _ u _ _ _ _ =>
              if o_ok ob then
-               match uidx u with
+               match uidx (acct u) with
                | None => ["user"%string]
-               | Some i => cl "nofree" (net_of g u + (obal ob i - obal (g_prev g) i) <=? 0)
+               | Some i => cl "nofree" (net_of g (acct u) + (obal ob i - obal (g_prev g) i) <=? 0)
                end
              else cl "reject" (same_state (g_prev g) ob)
          | _ => other_clauses (g_prev g) ob o end) ++ state_clauses (g_mx g) ob
@@ -285,8 +288,8 @@ Fixpoint check_steps (c : config) (g : ghost) (steps : list (op * obs)) (n : Z) 
           let ct := match o with OCreate _ _ _ nm _ _ => if o_ok ob then (nm, g_now g) :: g_ctime g else g_ctime g | _ => g_ctime g end in
           let nt := match o with
                     | OLpMsg _ u _ _ _ _ =>
-                        if o_ok ob then match uidx u with
-                                        | Some i => (u, net_of g u + (obal ob i - obal (g_prev g) i)) :: g_net g
+                        if o_ok ob then match uidx (acct u) with
+                                        | Some i => (acct u, net_of g (acct u) + (obal ob i - obal (g_prev g) i)) :: g_net g
                                         | None => g_net g end
                         else g_net g
                     | _ => g_net g end in
